@@ -97,11 +97,19 @@ def cond_atom(fn, mod, o, truth):
     if o["k"] != "inst": return None
     i = fn.imap[o["v"]]
     if i.op == "xor" and i.ops[1]["k"] == "int": return cond_atom(fn, mod, i.ops[0], not truth)
+    def low_bit(x):
+        # `flag & 1` of a bool field is the flag
+        x = strip(fn, x)
+        while x["k"] == "inst" and fn.imap[x["v"]].op == "and" and fn.imap[x["v"]].ops[1]["k"] == "int" and int(fn.imap[x["v"]].ops[1]["v"]) == 1:
+            x = strip(fn, fn.imap[x["v"]].ops[0])
+        return x
+    if i.op == "and" and i.ops[1]["k"] == "int" and int(i.ops[1]["v"]) == 1: return cond_atom(fn, mod, i.ops[0], truth)
     if i.op == "load":
         f = field_of(fn, mod, i.ops[0])
-        return ("field", f, truth) if f else None
+        return ("field", f, truth) if f else ("unknown", i.id)
     if i.op == "icmp":
         a, b = strip(fn, i.ops[0]), strip(fn, i.ops[1])
+        if b["k"] == "int" and int(b["v"]) == 0: a = low_bit(a)
         fa = field_of(fn, mod, fn.imap[a["v"]].ops[0]) if a["k"] == "inst" and fn.imap[a["v"]].op == "load" else None
         fb = field_of(fn, mod, fn.imap[b["v"]].ops[0]) if b["k"] == "inst" and fn.imap[b["v"]].op == "load" else None
         p = i["pred"]
@@ -114,7 +122,7 @@ def cond_atom(fn, mod, o, truth):
         a = strip(fn, i.ops[0])
         fa = field_of(fn, mod, fn.imap[a["v"]].ops[0]) if a["k"] == "inst" and fn.imap[a["v"]].op == "load" else None
         return ("cmp", "%s f%s %s" % (fa, i["pred"] if truth else "!" + i["pred"], i.ops[1].get("v")))
-    return None
+    return ("unknown", i.id)                     # a test this reader does not understand: the path may establish more than its atoms say
 
 
 def paths_to_ret(fn, mod, value):
@@ -250,6 +258,7 @@ def analyse(mod, run, label):
             if not bounded: missing.append(("field", "count < %d (exact unique count)" % thr, True))
             out_.append((atoms, missing))
         return out_
+    def undecided(atoms, missing): return bool(missing) and any(a[0] == "unknown" for a in atoms)
     verdicts = judged(paths)
     if any(m for _, m in verdicts) and label in ("ndebug", "asserts", "native"):
         # the predicates may have been given names (static helpers taking the statistics): read the decision tree with those inlined;
@@ -260,7 +269,11 @@ def analyse(mod, run, label):
             if v2 and not any(m for _, m in v2):
                 verdicts = v2; run.observe("A3: selector read with its file-local predicate helpers inlined")
     for k, (atoms, missing) in enumerate(verdicts):
-        def fmt(a): return "%s is %s" % (a[1], a[2]) if a[0] == "field" else "%s == %s" % (a[1], a[2])
+        if undecided(atoms, missing):
+            # the path tests something this reader does not understand; it may establish more than its atoms say
+            run.defer_broken("A3: a path of %s to BITMAP tests something this reader does not understand (instruction %s); what it establishes is undecided" % (sel.name, next(a[1] for a in atoms if a[0] == "unknown")))
+            continue
+        def fmt(a): return "%s is %s" % (a[1], a[2]) if a[0] == "field" else ("(test %%%s)" % a[1] if a[0] == "unknown" else "%s == %s" % (a[1], a[2]))
         run.check(not missing, "A3-bitmap-selection-within-domain", {"path": [fmt(a) if a[0] != "cmp" else a[1] for a in atoms]},
                   Finding("A3-bitmap-selected-outside-domain", sel.name, "BITMAP", "path-" + "+".join(sorted(fmt(a) for a in atoms if a[0] == "field" and a[2])),
                           "a path to `return VARINT_ADAPTIVE_BITMAP` does not establish %s: the bitmap codec stores an ascending duplicate-free set, so such input is decoded reordered or deduplicated" % ", ".join(fmt(a) for a in missing)))
@@ -285,6 +298,20 @@ def analyse(mod, run, label):
             if not isMax and x is not None and x["k"] == "inst":
                 # the maximum kept in a local and stored to stats->maxValue as well: the value compared is the value reported
                 isMax = any(j.op == "store" and field_of(ana, mod, j.ops[1]) == "maxValue" and strip(ana, j.ops[0]).get("v") == x["v"] and strip(ana, j.ops[0])["k"] == "inst" for j in ana.insts())
+                if not isMax and ana.imap[x["v"]].op == "phi":
+                    # the running maximum as a merge: every value it merges is one that is stored to stats->maxValue at that point
+                    stored5 = {strip(ana, j.ops[0])["v"] for j in ana.insts() if j.op == "store" and field_of(ana, mod, j.ops[1]) == "maxValue" and strip(ana, j.ops[0])["k"] == "inst"}
+                    leaves5 = set(); seen5 = set(); st5 = [x]
+                    while st5:
+                        o5 = strip(ana, st5.pop())
+                        if o5["k"] != "inst": leaves5.add(None); continue
+                        if o5["v"] in seen5: continue
+                        seen5.add(o5["v"])
+                        if o5["v"] in stored5: leaves5.add(o5["v"]); continue
+                        y5 = ana.imap[o5["v"]]
+                        if y5.op == "phi": st5 += [c_["v"] for c_ in y5["incoming"]]
+                        else: leaves5.add(None)
+                    isMax = bool(leaves5) and None not in leaves5
             fits.append((i, excl_bound(ana, ci) if isMax else None))
     if not fits: raise AnalysisBroken("A5: no store to fitsInBitmapRange in varintAdaptiveAnalyze")
     # the BITMAP arm: every varintBitmapAdd is guarded by value < K2, and its argument is that value truncated to 16 bits
@@ -470,6 +497,9 @@ def analyse(mod, run, label):
             if len(args7) != 1 or hl.t[args7[0]] != 1 or not (isinstance(args7[0], tuple) and args7[0][:2] == ("v", "arg") or isinstance(args7[0], tuple) and args7[0][0] == "arg"): break
             l7 = l7 + hl.c; site = inner[0][2]
         if len(l7.t) != 1 or list(l7.t.values()) != [1]: raise AnalysisBroken("A7: %s measures the width of %r, which is not size + constant" % (fname, l7))
+        a7 = next(iter(l7.t))
+        if isinstance(a7, tuple) and a7[0] in ("and", "wrap", "mul", "prod", "udiv", "urem", "shl", "lshr", "or", "xor", "select"):
+            raise AnalysisBroken("A7: %s measures the width of %r: a derived quantity (masked / wrapped), not recognisably size + constant" % (fname, l7))
         offs[fname] = (l7.c, mv7[0][2])
     ref = offs["varintDictBuild"][0]
     for fname, (c7, site7) in sorted(offs.items()):
